@@ -249,10 +249,17 @@ def w2(e: Engine, rep: Report):
                 len(n.args[0].elts) >= 4:
             # (code, SEP, <text parts...>, TERM)
             writes.append(n)
-    if len(writes) < 2 or sep_set is None or len(sep_set) != 1:
+    if len(writes) < 2 and sep_set is not None and len(sep_set) == 1 and \
+            _w2_sequence_shape(e, rep, ctx, where, sep_set, marker,
+                               accepts_tail):
+        writes = None
+    if writes is not None and (len(writes) < 2 or sep_set is None or
+                               len(sep_set) != 1):
         rep.error('anchor vanished: composed reply lines in send_reply '
                   '(%d) / separator class' % len(writes))
         return
+    if writes is None:
+        writes = []
     finals = set()
     for w in writes:
         code_e, sep_e = w.args[0].elts[:2]
@@ -318,6 +325,129 @@ def w2(e: Engine, rep: Report):
               % (len(cw) if cw else '?', len(cs) if cs else '?'),
               loc=ctx.func.loc(), reason='%d characters on both sides'
               % (len(cs) if cs else 0))
+
+
+def _w2_sequence_shape(e, rep, ctx, where, sep_set, marker, accepts_tail):
+    """send_reply spelled with a separator sequence:
+        separators = [CONT] * (len(lines) - 1) + [LAST]
+        ... code + separator + line + TERM for separator, line in
+            zip(separators, lines)
+    (composition by `+` or by b''.join of a tuple; in send_reply itself or in
+    a module-level helper it calls).  True when read and judged."""
+    mod = ctx.func.module
+    fns = [ctx.func.node]
+    for x in walk_own(ctx.func.node):
+        if isinstance(x, ast.Call) and isinstance(x.func, ast.Name):
+            for st in mod.tree.body:
+                if isinstance(st, ast.FunctionDef) and st.name == x.func.id:
+                    fns.append(st)
+
+    def const(x):
+        if isinstance(x, ast.Constant) and isinstance(x.value, bytes):
+            return x.value
+        if isinstance(x, ast.Name):
+            g = getattr(mod, 'globals', {}).get(x.id)
+            if isinstance(g, ast.Constant) and isinstance(g.value, bytes):
+                return g.value
+        return None
+    for fn in fns:
+        for comp in ast.walk(fn):
+            if not isinstance(comp, (ast.GeneratorExp, ast.ListComp)) or \
+                    len(comp.generators) != 1:
+                continue
+            gen = comp.generators[0]
+            if not (isinstance(gen.iter, ast.Call) and
+                    isinstance(gen.iter.func, ast.Name) and
+                    gen.iter.func.id == 'zip' and len(gen.iter.args) == 2 and
+                    isinstance(gen.target, ast.Tuple) and
+                    len(gen.target.elts) == 2 and
+                    all(isinstance(t, ast.Name) for t in gen.target.elts)):
+                continue
+            # the composed line: flatten `a + b + c + d` / join((a, b, c, d))
+            elt = comp.elt
+            parts = []
+            if isinstance(elt, ast.Call) and \
+                    isinstance(elt.func, ast.Attribute) and \
+                    elt.func.attr == 'join' and elt.args and \
+                    isinstance(elt.args[0], (ast.Tuple, ast.List)):
+                parts = list(elt.args[0].elts)
+            else:
+                x = elt
+                while isinstance(x, ast.BinOp) and isinstance(x.op, ast.Add):
+                    parts.insert(0, x.right)
+                    x = x.left
+                parts.insert(0, x)
+            if len(parts) < 4:
+                continue
+            tnames = [t.id for t in gen.target.elts]
+            sep_e = parts[1]
+            if not (isinstance(sep_e, ast.Name) and sep_e.id in tnames):
+                continue
+            seq_arg = gen.iter.args[tnames.index(sep_e.id)]
+            # the separator sequence: [A] * (...) + [B]
+            seq = seq_arg
+            if isinstance(seq, ast.Name):
+                ds = [a.value for a in walk_own(fn)
+                      if isinstance(a, ast.Assign) and any(
+                          isinstance(t, ast.Name) and t.id == seq.id
+                          for t in a.targets)]
+                if len(ds) != 1:
+                    continue
+                seq = ds[0]
+            if not (isinstance(seq, ast.BinOp) and
+                    isinstance(seq.op, ast.Add) and
+                    isinstance(seq.left, ast.BinOp) and
+                    isinstance(seq.left.op, ast.Mult) and
+                    isinstance(seq.right, ast.List) and
+                    len(seq.right.elts) == 1):
+                continue
+            rep_l = seq.left.left if isinstance(seq.left.left, ast.List) \
+                else seq.left.right
+            count = seq.left.right if rep_l is seq.left.left \
+                else seq.left.left
+            if not (isinstance(rep_l, ast.List) and len(rep_l.elts) == 1 and
+                    'len(' in ast.unparse(count) and
+                    ast.unparse(count).replace(' ', '').endswith('-1')) \
+                    and not ('len(' in ast.unparse(count) and
+                             '- 1' in ast.unparse(count)):
+                continue
+            cont, last = const(rep_l.elts[0]), const(seq.right.elts[0])
+            term = const(parts[-1])
+            loc = '%s:%d' % (mod.relpath, comp.lineno)
+            for which, val in (('continuation', cont), ('final', last)):
+                rep.evaluations += 1
+                rep.check(val is not None and len(val) == 1 and
+                          val[0] in sep_set[0], 'W2', where,
+                          '%s separator %r is one the parser accepts'
+                          % (which, val),
+                          'send_reply puts %r between code and text, which '
+                          'reply_line_pattern does not accept there: the '
+                          'library cannot parse its own reply' % (val,),
+                          loc=loc, reason='member of the separator class of '
+                          'reply_line_pattern')
+            rep.evaluations += 1
+            rep.check(term is not None and accepts_tail(term) is True, 'W2',
+                      where, 'line terminator %r is one the parser accepts'
+                      % (term,),
+                      'send_reply ends a reply line with %r, which the tail '
+                      'of reply_line_pattern does not match' % (term,),
+                      loc=loc, reason='matches the terminator of '
+                      'reply_line_pattern')
+            rep.evaluations += 1
+            rep.check(cont == marker, 'W2', where,
+                      'non-final lines carry the continuation marker',
+                      'a non-final line is written with %r but the parser '
+                      'continues a reply only after %r' % (cont, marker),
+                      loc=loc, reason='separator == %r' % marker)
+            rep.evaluations += 1
+            rep.check(last != marker, 'W2', where,
+                      'the final line does not carry the continuation '
+                      'marker', 'the last line of a reply is written with '
+                      'the continuation marker %r: the parser waits for a '
+                      'line that never comes' % marker, loc=loc,
+                      reason='separator != %r' % marker)
+            return True
+    return False
 
 
 # ---------------------------------------------------------------------- W3
@@ -591,7 +721,14 @@ def w6(e: Engine, rep: Report):
     where = ctx.func.qname
     fn = ctx.func.node
     n = 0
-    for x in walk_own(fn):
+    # send_reply and the module-level helpers it calls
+    nodes = list(walk_own(fn))
+    for x in list(nodes):
+        if isinstance(x, ast.Call) and isinstance(x.func, ast.Name):
+            for st in ctx.func.module.tree.body:
+                if isinstance(st, ast.FunctionDef) and st.name == x.func.id:
+                    nodes += list(ast.walk(st))
+    for x in nodes:
         if not isinstance(x, ast.Call) or \
                 not isinstance(x.func, ast.Attribute):
             continue
